@@ -161,6 +161,17 @@ impl Storage {
             earliest_uncommited_wal_id
         );
         let wal_files = writer.list(wal_dir).unwrap();
+        // A crash while a segment was being stored leaves its temporary file behind.
+        // Such a segment was never acknowledged and is not a valid blob: discard it.
+        let (wal_files, leftovers): (Vec<_>, Vec<_>) = wal_files
+            .into_iter()
+            .partition(|path| path.extension().map(|ext| ext == "wal").unwrap_or(false));
+        for path in leftovers {
+            log::warn!("Ignoring incomplete wal segment {}", path.display());
+            if !readonly {
+                writer.delete(&path).unwrap();
+            }
+        }
         let num_wal_files = wal_files.len();
         log::info!("Found {} wal segments", wal_files.len());
 
